@@ -348,6 +348,8 @@ class NativeCtx:
         self.fresh_counter = 0
         self.require_mode = "assume"
         self.proved = []
+        self.writes = []
+        self.prefix_label = ""
 
     def int(self, name, lo=None, hi=None):
         v = self.model.get(name)
